@@ -9,9 +9,11 @@ Open Scope string_scope.
 
 (* every method of this package that touches the shared object follows the lock discipline
    (Common/LockEv.disciplined: reads under a read or write lock, writes under the write lock,
-   every lock released, at most one self-locking call outside a critical section), and the
+   every lock released, at most one self-locking call outside a critical section), all of them
+   on the one lock "mutex", and the
    methods the model knows are all there *)
 Lemma locks_dnssrv_ok :
   all_disciplined lock_events_dnssrv = true /\ all_touch lock_events_dnssrv = true /\
+  all_one_lock "mutex" lock_events_dnssrv = true /\
   has_methods ["dnssrv.subscriber.Hosts"; "dnssrv.subscriber.update"] lock_events_dnssrv = true.
 Proof. repeat split; vm_compute; reflexivity. Qed.
